@@ -1,4 +1,5 @@
 import PwVerif.Proofs.Cache
+import PwVerif.Proofs.CacheTree
 /-!
 # C05 — Caching is transparent: a run served from cache equals a real run
 
@@ -8,13 +9,20 @@ deterministic and do not mutate their arguments. In particular a run is never sh
 strength of inputs whose execution failed, is still in flight, or was refused, nor after the
 composite's children or their wiring changed."
 
-Node level: one node, a deterministic function (`bad v` = it raises on input `v`), histories over
-{set input, run locally, run on an executor, job completion, clear the failed flag}, applied in
-lock-step to the node and to its twin with caching off.  `Cfg.pinned` = the code as pinned (cache
-written before the readiness gate, kept after a failure, hit taken even while running/failed),
-`Cfg.repaired` = written after the gate, cleared on failure, hit only when the run would be admitted.
-The composite-level clause (children / wiring changed) has no Lean content: it is checked by the
-twin oracle on the implementation (see harness/pwh/c05.py).
+## Node level (`PwVerif.Cache`)
+One node, a deterministic function (`beh v` = what it does on input `v`: returns, raises an Exception,
+raises KeyboardInterrupt, raises another BaseException, returns something `process_run_result`
+rejects), histories over {set input, run locally, run on an executor, oldest job completes, clear the
+failed flag, queued jobs cancelled before they start, the executor loses a job, the running flag is
+reset by hand}, applied in lock-step to the node and to its twin with caching off.
+`Cfg.pinned` = the code as pinned; `Cfg.repaired` = the tree as it is now (cache written after the
+gate, cleared on failure, hit only when the run would be admitted); `Cfg.proposed` = the inputs of an
+admitted run are recorded only when the result of that very run has been processed.
+
+## Composite level (`PwVerif.CacheTree`)
+Nested trees of function nodes and composites; `key` = `Composite._internal_cache_key`; a run =
+dataflow evaluation.  `KCfg.current` = the key as it is now (no node classes), `KCfg.proposed` = with
+the class of every child, `KCfg.shallow` = not descending into composite children (seeded change).
 -/
 namespace PwVerif.C05
 open PwVerif.Cache
@@ -22,76 +30,264 @@ open PwVerif.Cache
 /-- the full statement for a configuration: same results and same visible states for every history in
 which no executor submission is answered from the cache -/
 def Transparent (cfg : Cfg) : Prop :=
-  ∀ (bad : Nat → Bool) (ops : List Op), NoSubmitHit bad N.init ops →
-    (runOps cfg bad true N.init ops).2 = (runOps cfg bad false N.init ops).2 ∧
-    (runOps cfg bad true N.init ops).1.visible = (runOps cfg bad false N.init ops).1.visible
+  ∀ (beh : Nat → Outcome) (ops : List Op), NoSubmitHit cfg beh N.init ops →
+    (runOps cfg beh true N.init ops).2 = (runOps cfg beh false N.init ops).2 ∧
+    (runOps cfg beh true N.init ops).1.visible = (runOps cfg beh false N.init ops).1.visible
 
-theorem C05_transparent : Transparent Cfg.repaired := by
-  intro bad ops hok
-  obtain ⟨h1, h2⟩ := runOps_sim bad ops N.init N.init (init_sim bad) hok
+/-- EVERY history over the full alphabet (cancelled, lost, late and interrupted jobs, manual resets
+included), every deterministic function -/
+theorem C05_transparent : Transparent Cfg.proposed := by
+  intro beh ops hok
+  obtain ⟨h1, h2⟩ := runOps_sim beh ops N.init N.init (init_sim beh) hok
   refine ⟨h1, ?_⟩
   simp [N.visible, h2.inp, h2.out, h2.running, h2.failed]
 
 /-- from ANY pair of related states (not only the initial one) -/
-theorem C05_transparent_from (bad : Nat → Bool) (ops : List Op) (a b : N) (h : Sim bad a b)
-    (hok : NoSubmitHit bad a ops) :
-    (runOps Cfg.repaired bad true a ops).2 = (runOps Cfg.repaired bad false b ops).2 ∧
-    (runOps Cfg.repaired bad true a ops).1.visible = (runOps Cfg.repaired bad false b ops).1.visible := by
-  obtain ⟨h1, h2⟩ := runOps_sim bad ops a b h hok
+theorem C05_transparent_from (beh : Nat → Outcome) (ops : List Op) (a b : N) (h : Sim beh a b)
+    (hok : NoSubmitHit Cfg.proposed beh a ops) :
+    (runOps Cfg.proposed beh true a ops).2 = (runOps Cfg.proposed beh false b ops).2 ∧
+    (runOps Cfg.proposed beh true a ops).1.visible = (runOps Cfg.proposed beh false b ops).1.visible := by
+  obtain ⟨h1, h2⟩ := runOps_sim beh ops a b h hok
   refine ⟨h1, ?_⟩
   simp [N.visible, h2.inp, h2.out, h2.running, h2.failed]
 
 /-- an executor submission answered from the cache = submission + completion on the uncached twin -/
-theorem C05_submit_hit_settles (bad : Nat → Bool) (a b : N) (h : Sim bad a b) (hhit : a.hits = true) :
-    Sim bad (step Cfg.repaired bad true a .submit).1
-      (step Cfg.repaired bad false (step Cfg.repaired bad false b .submit).1 .complete).1 ∧
-    (step Cfg.repaired bad true a .submit).2 =
-      .ret (step Cfg.repaired bad false (step Cfg.repaired bad false b .submit).1 .complete).1.out :=
-  submit_hit_settles bad a b h hhit
+theorem C05_submit_hit_settles (beh : Nat → Outcome) (a b : N) (h : Sim beh a b) (hhit : a.hits = true)
+    (hq : a.jobs = []) :
+    Sim beh (step Cfg.proposed beh true a .submit).1
+      (step Cfg.proposed beh false (step Cfg.proposed beh false b .submit).1 .complete).1 ∧
+    (step Cfg.proposed beh true a .submit).2 =
+      .ret (step Cfg.proposed beh false (step Cfg.proposed beh false b .submit).1 .complete).1.out :=
+  submit_hit_settles beh a b h hhit hq
 
-/-! ### the pinned code is NOT transparent: three machine-checked histories (all replayed on /repo) -/
+/-- the tree AS IT IS: transparent for every history without a manual reset of `running` and without a
+lost job, for functions that raise nothing but `Exception`s — cancellation before start included -/
+theorem C05_current_partial (beh : Nat → Outcome) (hb : ∀ v, (beh v).tame = true) (ops : List Op)
+    (hops : ∀ o ∈ ops, o.tame = true) (hok : NoSubmitHit Cfg.repaired beh N.init ops) :
+    (runOps Cfg.repaired beh true N.init ops).2 = (runOps Cfg.repaired beh false N.init ops).2 ∧
+    (runOps Cfg.repaired beh true N.init ops).1.visible = (runOps Cfg.repaired beh false N.init ops).1.visible := by
+  obtain ⟨h1, h2⟩ := runOps_simR beh hb ops hops N.init N.init (init_simR beh) hok
+  refine ⟨h1, ?_⟩
+  simp [N.visible, h2.inp, h2.out, h2.running, h2.failed]
 
-def badOne : Nat → Bool := fun v => v == 1
+/-- a job cancelled before it starts takes the failure path: whatever the cache said is dropped and
+the node is failed (current and proposed discipline alike) — the seeded change C05-3 breaks this -/
+theorem C05_cancel_drops_cache (cfg : Cfg) (hc : cfg.clearOnFail = true) (beh : Nat → Outcome)
+    (useCache : Bool) (n : N) (hj : n.jobs ≠ []) :
+    (step cfg beh useCache n .cancel).1.cached = none ∧ (step cfg beh useCache n .cancel).1.failed = true ∧
+    (step cfg beh useCache n .cancel).1.running = false ∧ (step cfg beh useCache n .cancel).1.jobs = [] := by
+  cases hjs : n.jobs with
+  | nil => exact absurd hjs hj
+  | cons v js => simp [step, hjs, N.fail, hc]
+
+/-! ### behaviours for the witnesses: 1 raises an Exception, 4 KeyboardInterrupt, 5 another
+BaseException, 6 is rejected by `process_run_result`, everything else returns -/
+def behW : Nat → Outcome := fun v =>
+  if v == 1 then .exc else if v == 4 then .kbd else if v == 5 then .fatal else if v == 6 then .procbad else .ok
+
+/-! ### the tree as it is now is NOT transparent over the full alphabet (all replayed on /repo) -/
+
+/-- a job is lost, the user resets `running`, runs the same input again ⇒ stale outputs, function not
+called -/
+theorem C05_current_witness_lost :
+    (runOps Cfg.repaired behW true N.init [.set 2, .submit, .drop, .resetRunning, .run]).2
+      = [.unit, .future, .unit, .unit, .ret none] ∧
+    (runOps Cfg.repaired behW false N.init [.set 2, .submit, .drop, .resetRunning, .run]).2
+      = [.unit, .future, .unit, .unit, .ret (some 2)] := by
+  decide
+
+/-- … and a job that completes late, after a reset and another run, leaves outputs the cache does not
+belong to -/
+theorem C05_current_witness_late :
+    (runOps Cfg.repaired behW true N.init [.set 2, .submit, .resetRunning, .set 3, .run, .complete, .run]).2
+      = [.unit, .future, .unit, .unit, .ret (some 3), .unit, .ret (some 2)] ∧
+    (runOps Cfg.repaired behW false N.init [.set 2, .submit, .resetRunning, .set 3, .run, .complete, .run]).2
+      = [.unit, .future, .unit, .unit, .ret (some 3), .unit, .ret (some 3)] := by
+  decide
+
+/-- the job raises KeyboardInterrupt (a process-pool child interrupted): the done-callback only catches
+`Exception`, the node ends neither running nor failed, the cache written at submission stays ⇒ the
+re-run returns stale outputs instead of running (and being interrupted) again -/
+theorem C05_current_witness_interrupted :
+    (runOps Cfg.repaired behW true N.init [.set 4, .submit, .complete, .run]).2
+      = [.unit, .future, .escaped, .ret none] ∧
+    (runOps Cfg.repaired behW false N.init [.set 4, .submit, .complete, .run]).2
+      = [.unit, .future, .escaped, .interrupted] := by
+  decide
+
+/-- a local run dies with a BaseException that is not caught (`running` stays set), the user resets
+it ⇒ stale outputs -/
+theorem C05_current_witness_fatal :
+    (runOps Cfg.repaired behW true N.init [.set 5, .run, .resetRunning, .run]).2
+      = [.unit, .fatal, .unit, .ret none] ∧
+    (runOps Cfg.repaired behW false N.init [.set 5, .run, .resetRunning, .run]).2
+      = [.unit, .fatal, .unit, .fatal] := by
+  decide
+
+theorem C05_current_not_transparent : ¬ Transparent Cfg.repaired := by
+  intro h
+  have := (h behW [.set 4, .submit, .complete, .run] (by unfold NoSubmitHit; decide)).1
+  revert this
+  decide
+
+/-! ### the pinned code: three machine-checked histories over the OLD alphabet already (all replayed on
+the pinned /repo, repaired by 0699958) -/
 
 /-- run raises; clear `failed`; run again with the same input ⇒ stale outputs, function not called -/
 theorem C05_pinned_witness_failed :
-    (runOps Cfg.pinned badOne true N.init [.set 1, .run, .clearFailed, .run]).2 = [.unit, .raised, .unit, .ret none] ∧
-    (runOps Cfg.pinned badOne false N.init [.set 1, .run, .clearFailed, .run]).2 = [.unit, .raised, .unit, .raised] := by
+    (runOps Cfg.pinned behW true N.init [.set 1, .run, .clearFailed, .run]).2 = [.unit, .raised, .unit, .ret none] ∧
+    (runOps Cfg.pinned behW false N.init [.set 1, .run, .clearFailed, .run]).2 = [.unit, .raised, .unit, .raised] := by
   decide
 
 /-- a refused run (input not ready), then run again ⇒ returns outputs instead of refusing -/
 theorem C05_pinned_witness_refused :
-    (runOps Cfg.pinned badOne true N.init [.run, .run]).2 = [.readiness, .ret none] ∧
-    (runOps Cfg.pinned badOne false N.init [.run, .run]).2 = [.readiness, .readiness] := by
+    (runOps Cfg.pinned behW true N.init [.run, .run]).2 = [.readiness, .ret none] ∧
+    (runOps Cfg.pinned behW false N.init [.run, .run]).2 = [.readiness, .readiness] := by
   decide
 
 /-- a second run while the first is in flight on an executor ⇒ stale outputs instead of a refusal -/
 theorem C05_pinned_witness_inflight :
-    (runOps Cfg.pinned badOne true N.init [.set 2, .submit, .run]).2 = [.unit, .future, .ret none] ∧
-    (runOps Cfg.pinned badOne false N.init [.set 2, .submit, .run]).2 = [.unit, .future, .readiness] := by
+    (runOps Cfg.pinned behW true N.init [.set 2, .submit, .run]).2 = [.unit, .future, .ret none] ∧
+    (runOps Cfg.pinned behW false N.init [.set 2, .submit, .run]).2 = [.unit, .future, .readiness] := by
   decide
 
 theorem C05_pinned_not_transparent : ¬ Transparent Cfg.pinned := by
   intro h
-  have := (h badOne [.run, .run] (by unfold NoSubmitHit; decide)).1
+  have := (h behW [.run, .run] (by unfold NoSubmitHit; decide)).1
   revert this
   decide
 
-/-! non-vacuity: a history with a failure, a refusal, an in-flight run, a hit and a miss -/
+/-! non-vacuity: a history with a failure, a refusal, an in-flight run, a hit, a miss, a cancelled job,
+a lost job with reset, a late completion and an interrupted job -/
 def exOps : List Op :=
-  [.set 2, .submit, .run, .complete, .run, .set 1, .run, .clearFailed, .run, .clearFailed, .set 2, .run, .set 3, .run]
-example : NoSubmitHit badOne N.init exOps := by unfold NoSubmitHit; decide
-example : (runOps Cfg.repaired badOne true N.init exOps).2
+  [.set 2, .submit, .run, .complete, .run, .set 1, .run, .clearFailed, .run, .clearFailed, .set 2, .run, .set 3, .run,
+   .set 7, .submit, .cancel, .run, .clearFailed, .set 2, .submit, .drop, .resetRunning, .run, .set 3, .submit, .resetRunning,
+   .set 2, .run, .complete, .run, .set 4, .submit, .complete, .run]
+example : NoSubmitHit Cfg.proposed behW N.init exOps := by unfold NoSubmitHit; decide
+example : (runOps Cfg.proposed behW true N.init exOps).2
     = [.unit, .future, .readiness, .unit, .ret (some 2), .unit, .raised, .unit, .raised, .unit, .unit,
-       .ret (some 2), .unit, .ret (some 3)] := by
+       .ret (some 2), .unit, .ret (some 3),
+       .unit, .future, .unit, .readiness, .unit, .unit, .future, .unit, .unit, .ret (some 2), .unit, .future, .unit,
+       .unit, .ret (some 2), .unit, .ret (some 2), .unit, .future, .escaped, .interrupted] := by
+  decide
+/-- hypotheses of `C05_current_partial` are satisfiable by a history with a cancellation and a hit -/
+def exTame : List Op := [.set 2, .submit, .cancel, .run, .clearFailed, .run, .run, .set 6, .submit, .complete]
+example : (∀ o ∈ exTame, o.tame = true) ∧ NoSubmitHit Cfg.repaired (fun v => if v == 6 then .procbad else .ok) N.init exTame := by
+  unfold NoSubmitHit; decide
+example : (runOps Cfg.repaired (fun v => if v == 6 then .procbad else .ok) true N.init exTame).2
+    = [.unit, .future, .unit, .readiness, .unit, .ret (some 2), .ret (some 2), .unit, .future, .unit] := by decide
+example : ∃ a b : N, Sim behW a b ∧ a.hits = true ∧ a.jobs = [] :=
+  ⟨{ N.init with inp := 2, out := some 2, cached := some 2 }, { N.init with inp := 2, out := some 2 },
+   ⟨rfl, rfl, rfl, rfl, rfl, by simp [N.init], by simp [behW]⟩, by decide, rfl⟩
+
+/-! ## composite level -/
+section Tree
+open PwVerif.CacheTree
+
+/-- SOUNDNESS OF A HIT, every nesting depth, every wiring, every interpretation of the node functions:
+two children lists with the same key make every run return the same thing -/
+theorem C05_key_sound {ρ : Type} (S : Sem ρ) (fuel : Nat) (vals : List ρ) (k1 k2 : List (Nat × T))
+    (h : key KCfg.proposed k1 = key KCfg.proposed k2) :
+    evalAll S fuel vals k1 = evalAll S fuel vals k2 :=
+  key_sound_all S fuel vals k1 k2 h
+
+/-- the key of the tree as it is: sound when no function node changed its class -/
+theorem C05_key_sound_current_partial {ρ : Type} (S : Sem ρ) (fuel : Nat) (vals : List ρ)
+    (k1 k2 : List (Nat × T)) (h : key KCfg.current k1 = key KCfg.current k2) (hc : ClsAgree k1 k2) :
+    evalAll S fuel vals k1 = evalAll S fuel vals k2 := by
+  apply key_sound_all
+  have hk : keyKids KCfg.current k1 = keyKids KCfg.current k2 := by
+    simp only [key, K.mk.injEq] at h
+    exact Prod.ext h.1 h.2
+  have := key_upgrade k1 k2 hk hc
+  simp [key, this]
+
+/-- transparency of a composite for EVERY history of input assignments, arbitrary edits at any depth
+(the children list is replaced by any other), structural edits and runs -/
+def TreeTransparent (c : KCfg) : Prop :=
+  ∀ (S : Sem Nat) (fuel : Nat) (s0 : St Nat) (ops : List (CacheTree.Op Nat)), s0.cache = none →
+    (CacheTree.runOps S c fuel true s0 ops).2 = (CacheTree.runOps S c fuel false s0 ops).2 ∧
+    (CacheTree.runOps S c fuel true s0 ops).1.outs = (CacheTree.runOps S c fuel false s0 ops).1.outs
+
+/-- for any value type, from any related pair of states -/
+theorem C05_tree_transparent_from {ρ : Type} [DecidableEq ρ] (S : Sem ρ) (fuel : Nat)
+    (ops : List (CacheTree.Op ρ)) (a b : St ρ) (h : CacheTree.Sim S fuel a b) :
+    (CacheTree.runOps S KCfg.proposed fuel true a ops).2 = (CacheTree.runOps S KCfg.proposed fuel false b ops).2 ∧
+    (CacheTree.runOps S KCfg.proposed fuel true a ops).1.outs = (CacheTree.runOps S KCfg.proposed fuel false b ops).1.outs := by
+  obtain ⟨h1, h2⟩ := CacheTree.runOps_sim S fuel ops a b h
+  exact ⟨h1, h2.outs⟩
+
+theorem C05_tree_transparent : TreeTransparent KCfg.proposed := by
+  intro S fuel s0 ops hc
+  exact C05_tree_transparent_from S fuel ops s0 s0 ⟨rfl, rfl, rfl, by simp [hc]⟩
+
+/-! ### witnesses: workflow → macro → two function nodes; `natSem` tells classes and arguments apart -/
+def natSem : Sem Nat := { F := fun c args => 1000 * c + args.foldl (· + ·) 0 + 1, atom := id, nd := 0 }
+
+/-- child 1 is a macro (input 0 holds 7, exposes grandchild 3) with grandchildren 2 (linked to the macro
+input) and 3 (fed by 2, free input 5); child 4 is fed by the macro -/
+def kidsA : List (Nat × T) :=
+  [(1, .comp 3 [.val 7] [(2, .leaf 10 [.link 0]), (3, .leaf 11 [.conn 2, .val 5])]), (4, .leaf 12 [.conn 1])]
+/-- grandchild 3 replaced by a node of another class (it is the macro's last child, so nothing moves) -/
+def kidsB : List (Nat × T) :=
+  [(1, .comp 3 [.val 7] [(2, .leaf 10 [.link 0]), (3, .leaf 19 [.conn 2, .val 5])]), (4, .leaf 12 [.conn 1])]
+/-- the free input of grandchild 3 set to 6 -/
+def kidsC : List (Nat × T) :=
+  [(1, .comp 3 [.val 7] [(2, .leaf 10 [.link 0]), (3, .leaf 11 [.conn 2, .val 6])]), (4, .leaf 12 [.conn 1])]
+
+/-- the key as it is now does not see the class of a grandchild: same key, different result -/
+theorem C05_key_current_witness :
+    key KCfg.current kidsA = key KCfg.current kidsB ∧
+    evalAll natSem 5 [] kidsA ≠ evalAll natSem 5 [] kidsB := by
+  refine ⟨rfl, by decide⟩
+
+/-- … so the outer composite answers from its cache after the replacement (replayed on /repo) -/
+theorem C05_tree_current_not_transparent : ¬ TreeTransparent KCfg.current := by
+  intro h
+  have := (h natSem 5 { vals := [], kids := kidsA, outs := [], cache := none }
+    [.run, .edit kidsB, .run] rfl).1
+  revert this
   decide
 
+/-- a key that does not descend into composite children (seeded change C05-2) does not see a
+grandchild's input: same key, different result -/
+theorem C05_key_shallow_witness :
+    key KCfg.shallow kidsA = key KCfg.shallow kidsC ∧
+    evalAll natSem 5 [] kidsA ≠ evalAll natSem 5 [] kidsC := by
+  refine ⟨rfl, by decide⟩
+
+/-- with the proposed key both edits are seen -/
+example : K.beq (key KCfg.proposed kidsA) (key KCfg.proposed kidsB) = false ∧
+    K.beq (key KCfg.proposed kidsA) (key KCfg.proposed kidsC) = false ∧
+    K.beq (key KCfg.current kidsA) (key KCfg.current kidsC) = false := by decide
+/-- non-vacuity: a history with a hit, edits at depth 2 (a miss each) and a structural edit -/
+example : (CacheTree.runOps natSem KCfg.proposed 5 true { vals := [], kids := kidsA, outs := [], cache := none }
+    [.run, .run, .edit kidsC, .run, .edit kidsA, .run, .structural kidsB, .run]).2
+    = [some [(1, 21014), (4, 33015)], some [(1, 21014), (4, 33015)], none, some [(1, 21015), (4, 33016)], none,
+       some [(1, 21014), (4, 33015)], none, some [(1, 29014), (4, 41015)]] := by decide
+example : ClsAgree kidsA kidsC ∧ key KCfg.current kidsA = key KCfg.current kidsA := ⟨by simp [ClsAgree, kidsA, kidsC], rfl⟩
+
+end Tree
 end PwVerif.C05
 
 #print axioms PwVerif.C05.C05_transparent
 #print axioms PwVerif.C05.C05_transparent_from
 #print axioms PwVerif.C05.C05_submit_hit_settles
+#print axioms PwVerif.C05.C05_current_partial
+#print axioms PwVerif.C05.C05_cancel_drops_cache
+#print axioms PwVerif.C05.C05_current_witness_lost
+#print axioms PwVerif.C05.C05_current_witness_late
+#print axioms PwVerif.C05.C05_current_witness_interrupted
+#print axioms PwVerif.C05.C05_current_witness_fatal
+#print axioms PwVerif.C05.C05_current_not_transparent
 #print axioms PwVerif.C05.C05_pinned_witness_failed
 #print axioms PwVerif.C05.C05_pinned_witness_refused
 #print axioms PwVerif.C05.C05_pinned_witness_inflight
 #print axioms PwVerif.C05.C05_pinned_not_transparent
+#print axioms PwVerif.C05.C05_key_sound
+#print axioms PwVerif.C05.C05_key_sound_current_partial
+#print axioms PwVerif.C05.C05_tree_transparent
+#print axioms PwVerif.C05.C05_tree_transparent_from
+#print axioms PwVerif.C05.C05_key_current_witness
+#print axioms PwVerif.C05.C05_tree_current_not_transparent
+#print axioms PwVerif.C05.C05_key_shallow_witness
